@@ -1,5 +1,3 @@
-// abstract value of a lossless Relation handle: what its accessors report (see prelude/relacc_model.rs)
-pub uninterp spec fn acc(r: Relation) -> RelV;
 pub open spec fn prof_view(p: dc_relations::BuildProfile) -> ProfV {
     match p { dc_relations::BuildProfile::Enabled(s) => (false, s@), dc_relations::BuildProfile::Disabled(s) => (true, s@) }
 }
